@@ -42,12 +42,19 @@ def tasks(tier):
     # every well keeps its own preparation text through plate operations (text provenance; contracts/plate_ops.py)
     from contracts import plate_ops as PO
     t += [('plate_text',) + c for c in PO.transfer_cases(tier)]
+    from contracts import propsets
+    t += propsets.unit_contract_tasks(tier, PID)     # amounts in the text are converted through Unit.convert_from's specification
     t.append(('canaries',))
     return t
 
 
 def run(kind_, *args):
     return globals()['run_' + kind_](*args)
+
+
+def run_unit_contract(*args):
+    from contracts import propsets
+    return propsets.run_unit_contract(PID, *args)
 
 
 def run_plate_text(*case):
